@@ -1,13 +1,13 @@
 INIT Init
 NEXT Next
 CONSTANTS
-  TFacts <- TF
-  Nows <- NW
+  TFacts <- TFO
+  Nows <- NWO
   Rules1 <- R1
   Rules2 <- R2
-  MaxFacts = 4
-  MinFacts = 0
-  AllowOverlap = FALSE
+  MaxFacts = 6
+  MinFacts = 3
+  AllowOverlap = TRUE
   Randomized = TRUE
 INVARIANT Emit
 CHECK_DEADLOCK FALSE
